@@ -37,3 +37,5 @@ def run(idx, rep, tier):
     hydro.r_allfaces(idx, rep)
     hydro.r_hpcover(idx, rep)      # a polygon that is not clipped by one half-plane leaves its tetrahedron and over-estimates the force on one side only
     unpack.r_unpack(idx, rep, floor=14)
+    generic2.r_axisuniform(idx, rep, [m.name for m in idx.lib_modules()], floor=0)      # hand-unrolled per-axis box tests treat the axes alike
+    generic2.r_distinct(idx, rep, [m.name for m in idx.lib_modules()], floor=0)
